@@ -724,6 +724,7 @@ class Lit(tuple):
          ("if", statement)                  the statement is inside that branch of the if
          ("guard", statement, exits)        an earlier `if` of the same block whose other branch never falls through;
                                             exits: how that branch leaves, a subset of return/raise/continue/break
+                                            (also: inside a branch of an `if` whose alternative only ever raises)
          ("operand", boolop)                an earlier operand of the same short-circuit expression"""
 
     def __new__(cls, expr, pol, origin=None):
@@ -836,11 +837,20 @@ def walk(fn, lock_attrs=("__lock",), selfname="self"):
 
     def block(stmts, conds, locked, tries, loops):
         conds = list(conds)
-        for st in stmts:
+        for pos, st in enumerate(stmts):
             if isinstance(st, ast.If):
                 tests(st.test, conds, locked, tries, loops, st)
-                block(st.body, conds + decompose(st.test, True, ("if", st)), locked, tries, loops)
-                block(st.orelse, conds + decompose(st.test, False, ("if", st)), locked, tries, loops)
+                # a branch whose ALTERNATIVE only ever raises is what a guard clause would have left: `if ok: work; return`
+                # followed by `raise` (or `else: raise`) is the positive spelling of `if not ok: raise`, and the literal
+                # is argument validation all the same (the alternative of the body is the else branch, or - when the body
+                # never falls through - the rest of the block)
+                def only_raises(blk):
+                    return bool(blk) and terminates(blk) and exit_kinds(blk) == {"raise"}
+                alt_body = st.orelse if st.orelse else (stmts[pos + 1:] if terminates(st.body) else [])
+                o_body = ("guard", st, {"raise"}) if only_raises(alt_body) else ("if", st)
+                o_else = ("guard", st, {"raise"}) if only_raises(st.body) else ("if", st)
+                block(st.body, conds + decompose(st.test, True, o_body), locked, tries, loops)
+                block(st.orelse, conds + decompose(st.test, False, o_else), locked, tries, loops)
                 if terminates(st.body) and not terminates(st.orelse):
                     conds = conds + decompose(st.test, False, ("guard", st, exit_kinds(st.body)))
                 elif terminates(st.orelse) and not terminates(st.body):
